@@ -5,7 +5,7 @@ ID = "C03"
 HARNESS = "c03"
 N_CASES = {"quick": 48, "thorough": 1500}
 N_SEARCH = {"quick": 1, "thorough": 2}
-SHARD = 16
+SHARD = 24
 HAS_MODEL_OUT = True
 RULE = ("subnet sets (<= 12 per map: seeds with nested / adjacent / same-network-address chains, default routes, "
         "edges of the address space, ::/N and 0.0.0.0/N with non-default N, blocks around ::ffff:0:0/96 and ::1:0:0:0, "
